@@ -1397,6 +1397,7 @@ impl VectorEngine {
         for key in keys {
             let _ = self.store.delete(&key);
         }
+        self.invalidate_hnsw_cache(name);
 
         Ok(())
     }
